@@ -2,7 +2,7 @@
 # sweep.sh <count> <tier> <seed> [props...]  - run batches and summarise (development helper)
 COUNT=$1; TIER=$2; SEED=$3; shift 3
 PROPS=${@:-C01 C02 C03 C10 C11 C12 C13 C14 C17 C18 C20}
-B=/verif/target-verif/release/llg-sim
+B=${B:-/verif/target-verif/release/llg-sim}
 for p in $PROPS; do
   timeout 3000 $B batch --prop $p --tier $TIER --seed $SEED --count $COUNT --jobs 16 --hang-secs 30 --out /verif/out > /verif/out/$p.log 2>&1
   echo "## $p rc=$? viol=$(grep -c '^VIOLATION' /verif/out/$p.log) $(grep '^runs=' /verif/out/$p.log | cut -c1-230)"
